@@ -113,12 +113,13 @@ def matrix_to_ring(mat, M):
     return {"k": kmax, "e": rows}
 
 
-def is_adjoint(op):
-    return op.name.startswith("Adjoint(") and hasattr(op, "base")
-
-
 def is_pow(op):
-    return op.name.startswith("Pow(") and hasattr(op, "base") and hasattr(op, "z")
+    # Pow / Pow2: the name is "Pow(base)" or "<base name>**z" (so a power of an adjoint starts with "Adjoint(")
+    return hasattr(op, "base") and hasattr(op, "z") and (op.name.startswith("Pow(") or "**" in op.name)
+
+
+def is_adjoint(op):
+    return op.name.startswith("Adjoint(") and hasattr(op, "base") and not is_pow(op)
 
 
 def is_ctrl(op):
